@@ -15,7 +15,7 @@ RULE = ('cases = generated programs for 2-3 connections on one DB (file/mapping/
         'are identified exactly), whether served from the cache or the storage; after a boundary the snapshot includes every '
         'commit completed before it; evaluations = steps; non-trivial = a read of an object for which another connection '
         'committed a newer revision after the reader\'s boundary'
-        "; half of the cases are THREAD cases: 2-4 real threads (committers, readers) on one DB run under the harness's deterministic scheduler (vlib/sched.py: one run token, yield points at every ZODB lock/condition operation, every file operation of the storage and, in half of them, every source line of the commit/poll/load functions); the schedule is generated (dense random choices, or few targeted preemptions 'at the n-th release/acquire/file/line point hand over to thread k'); oracles over the event log and the final storage: every read is the revision current at the reading connection's snapshot bound (serial < bound <= tid of the next revision), all reads of one transaction were current together, the snapshot is not older than any commit that had returned before the boundary began, every stored revision was derived from its immediate predecessor, every returned commit is stored, counters equal the sum of successful increments, no deadlock; non-trivial thread case = >= 1 preemption and >= 1 successful write commit"
+        "; half of the cases are THREAD cases: 2-4 real threads (committers, readers, in 3 of 10 file/mapping cases also a packer thread with a generated pack time) on one DB run under the harness's deterministic scheduler (vlib/sched.py: one run token, yield points at every ZODB lock/condition operation, every file operation of the storage and, in half of them, every source line of the commit/poll/load functions); the schedule is generated (dense random choices, or few targeted preemptions 'at the n-th release/acquire/file/line point hand over to thread k'); oracles over the event log and the final storage: every read is the revision current at the reading connection's snapshot bound (serial < bound <= tid of the next revision), all reads of one transaction were current together, the snapshot is not older than any commit that had returned before the boundary began, every stored revision was derived from its immediate predecessor, every returned commit is stored, counters equal the sum of successful increments, no deadlock; non-trivial thread case = >= 1 preemption and >= 1 successful write commit"
         '; distinct by program hash')
 ASSUMPTIONS = ['thread cases: preemption happens only at the scheduler\'s yield points (ZODB lock/condition operations, storage '
                'file operations, source lines of the watched commit/poll/load functions); code between two yield points is atomic; '
@@ -34,6 +34,8 @@ def thread_strategy(roles):
             lambda r: st.tuples(st.just(r), threadprog.program_strategy(r)).map(list)), min_size=2, max_size=4),
         'schedule': threadprog.SCHEDULE,
         'lines': st.booleans(),
+        # a packer thread among them (file and mapping storages): None or how far back the pack time lies
+        'packer': st.sampled_from([None, None, None, 0.0, 0.02, 1.0]),
     })
 
 
@@ -59,11 +61,14 @@ def run_threads(case, prop, oracles):
     clock.install()
     clock.reset()
     d = newdir()
-    tr = threadprog.ThreadRun(case['kind'], d)
+    tr = threadprog.ThreadRun(case['kind'], d, prehistory=2 if case.get('packer') is not None else 0)
     try:
         threads = []
         for i, (role, prog) in enumerate(case['programs']):
             threads.append(('%s%d' % (role[0], i), tr.body('%s%d' % (role[0], i), prog, role)))
+        if case.get('packer') is not None and case['kind'] in ('fs', 'mapping'):
+            threads.append(('packer', tr.packer('packer', case['packer'])))
+            out.label('threads-with-packer')
         s = tr.run(threads, case['schedule'], line_funcs() if case.get('lines') else ())
         out.evals = max(1, s.steps)
         out.label('threads', 'threads-' + case['kind'])
